@@ -83,6 +83,13 @@ func walkReal(x any, depth int, info *rvInfo) *nfNode {
 		return n
 	}
 	info.leafSeq = append(info.leafSeq, fmt.Sprintf("%T:%v", x, x))
+	switch x.(type) {
+	case stackage.Stack, stackage.Condition, *stackage.Stack, *stackage.Condition:
+		// a hollow value of the library's own types (zero value, nil pointer): a Stack / Condition by type, nothing
+		// by content. Whether a wrapper around just that counts as "needless" is left open (both readings of "one
+		// Stack or Condition child" are accepted): the normal form unwraps it on both sides.
+		return &nfNode{kind: "hollow", label: fmt.Sprintf("%T:%v", x, x)}
+	}
 	return &nfNode{kind: "leaf", label: fmt.Sprintf("%T:%v", x, x)}
 }
 
@@ -98,7 +105,7 @@ func eligibleWrapper(n *nfNode) bool {
 		return false
 	}
 	c := n.children[0]
-	return (c.kind == "stack" || c.kind == "cond") && !c.paren
+	return (c.kind == "stack" || c.kind == "cond" || c.kind == "hollow") && !c.paren
 }
 
 // normalise unwraps every eligible wrapper below n (n itself is kept).
@@ -113,7 +120,7 @@ func normalise(n *nfNode) {
 
 func (n *nfNode) String() string {
 	switch n.kind {
-	case "leaf":
+	case "leaf", "hollow":
 		return n.label
 	}
 	var parts []string
@@ -238,7 +245,7 @@ func runC20(c C20Case) (st Stats, err error) {
 		if b.paren || b.not {
 			return st, violf("reveal/removed-paren-or-NOT", "a parenthetical or NOT stack (%s, paren=%v not=%v) disappeared\n  tree %s", id, b.paren, b.not, c.Root.Brief())
 		}
-		if b.n != 1 || (b.childKind != "stack" && b.childKind != "cond") || b.childParen {
+		if b.n != 1 || (b.childKind != "stack" && b.childKind != "cond" && b.childKind != "hollow") || b.childParen {
 			return st, violf("reveal/removed-ineligible", "a stack that is not a redundant wrapper disappeared (%s: len %d, only child %s, child paren %v)\n  tree %s", id, b.n, b.childKind, b.childParen, c.Root.Brief())
 		}
 	}
@@ -265,6 +272,10 @@ func genC20(t *rapid.T, tier Tier) C20Case {
 	var genElem func(depth int) Node
 	genLeaf := func() Node {
 		leafN++
+		if rapid.IntRange(0, 14).Draw(t, "hollow?") == 0 {
+			// hollow values of the library's own types, stored as plain values (also as a Condition's expression)
+			return LeafN(Val{K: rapid.SampledFrom([]string{"zstack", "zcond", "nilsp", "nilcp", "tnil"}).Draw(t, "hollow"), Depth: 1})
+		}
 		return LeafN(VS("l" + itoa(leafN)))
 	}
 	genCond := func(depth int) Node {
